@@ -98,10 +98,52 @@ def one_call(pm, n, order, fail, timeout, exc="module-class"):
     return box.get("obs", ["timeout"])
 
 
+def eq_sequence(k, nproc, timeout):
+    """several ParallelMap objects one after the other in one interpreter, each for a DIFFERENT equilibrium object created after the previous one was deleted (CPython then
+    usually hands out the same address again): what the workers see must be the equilibrium of THEIR ParallelMap"""
+    import gc
+    obs = []
+    last_id = None
+    for j in range(k):
+        keep = []
+        eq = FakeEq()
+        if last_id is not None:
+            # ask for new objects until the address of the deleted equilibrium comes back (bounded)
+            for _ in range(20000):
+                if id(eq) == last_id:
+                    break
+                keep.append(eq)
+                eq = FakeEq()
+        eq.psi = float(100 + j)
+        pm = ParallelMap(nproc, equilibrium=eq)
+        o = one_call(pm, 2, [0, 1], set(), timeout)
+        obs.append([float(eq.psi), id(eq), o])
+        if pm.workers is not None:
+            for w in pm.workers:
+                w.terminate()
+        if j % 2 == 1:
+            # ... and the same object changed in place, then handed to a new ParallelMap
+            eq.psi = float(200 + j)
+            pm2 = ParallelMap(nproc, equilibrium=eq)
+            o = one_call(pm2, 2, [0, 1], set(), timeout)
+            obs.append([float(eq.psi), id(eq), o])
+            if pm2.workers is not None:
+                for w in pm2.workers:
+                    w.terminate()
+            del pm2
+        last_id = id(eq)
+        del pm, eq, keep
+        gc.collect()
+    return obs
+
+
 def main():
     scenarios = json.load(sys.stdin)
     out = []
     for sc in scenarios:
+        if sc.get("eq_sequence"):
+            out.append(eq_sequence(sc["eq_sequence"], sc["np"], sc.get("timeout", 6)))
+            continue
         pm = ParallelMap(sc["np"], equilibrium=FakeEq())
         obs = []
         for call in sc["calls"]:
